@@ -61,12 +61,18 @@ type history struct {
 	Root  bool   `json:"root"`
 	Start string `json:"start"` // fresh | once | converged
 	Ops   []op   `json:"ops"`
+	// Late: the package directories are called pa, pb, pb/nested, pc instead of a, b, b/nested, c: with a root package
+	// every name in the module root then sorts AFTER gengo.sum (go.mod, pa, pb, pc, rootpkg_src.go)
+	Late bool `json:"late,omitempty"`
 }
 
 func (h history) String() string {
 	var s []string
 	for _, o := range h.Ops {
 		s = append(s, o.String())
+	}
+	if h.Late {
+		return fmt.Sprintf("root=%v late-names start=%s: %s", h.Root, h.Start, strings.Join(s, " ; "))
 	}
 	return fmt.Sprintf("root=%v start=%s: %s", h.Root, h.Start, strings.Join(s, " ; "))
 }
@@ -136,6 +142,14 @@ func enumerate(tier string) []history {
 			}
 		}
 	}
+	// late directory names with a root package: gengo.sum is the FIRST name in the module root
+	for _, start := range []string{"fresh", "once", "converged"} {
+		for _, f := range []op{{Kind: "noop"}, {Kind: "edit-src", Pkg: "."}, {Kind: "edit-src", Pkg: "a"}, {Kind: "del-sum"}, {Kind: "sum-garbage"}} {
+			for _, rk := range []string{"run-all", "run-all-force", "run-subset"} {
+				hs = append(hs, history{Root: true, Late: true, Start: start, Ops: []op{f, {Kind: rk}}})
+			}
+		}
+	}
 	return hs
 }
 
@@ -194,6 +208,7 @@ type world struct {
 	salt  int
 	base  string
 	trace []string
+	pre   string // directory name prefix (history.Late)
 }
 
 func pathOf(dir string) string {
@@ -203,18 +218,30 @@ func pathOf(dir string) string {
 	return mod + "/" + dir
 }
 
-func newWorld(w *core.Worker, name string, root bool) (*world, error) {
+// phys maps the logical directory of an op (a, b, b/nested, c, .) to the directory on disk.
+func (wd *world) phys(dir string) string {
+	if dir == "." || dir == "" {
+		return dir
+	}
+	return wd.pre + dir
+}
+
+func newWorld(w *core.Worker, name string, root bool, late bool) (*world, error) {
 	m, err := fixture.New(w.Scratch, name, mod, "1.24")
 	if err != nil {
 		return nil, err
 	}
 	tags := []string{"+gengo:rec"}
 	wd := &world{m: m, root: root, pkgs: map[string]*layout.Pkg{}, base: "zz_generated"}
+	if late {
+		wd.pre = "p"
+	}
+	pre := wd.pre
 	ps := []*layout.Pkg{
-		{Dir: "a", Name: "a", Imports: []string{mod + "/b"}, Types: []string{"A1", "A2"}, Tags: tags},
-		{Dir: "b", Name: "b", Imports: []string{mod + "/b/nested"}, Types: []string{"B1"}, Tags: tags},
-		{Dir: "b/nested", Name: "nested", Types: []string{"N1"}, Tags: tags},
-		{Dir: "c", Name: "c", Types: []string{"C1"}, Tags: tags},
+		{Dir: pre + "a", Name: "a", Imports: []string{mod + "/" + pre + "b"}, Types: []string{"A1", "A2"}, Tags: tags},
+		{Dir: pre + "b", Name: "b", Imports: []string{mod + "/" + pre + "b/nested"}, Types: []string{"B1"}, Tags: tags},
+		{Dir: pre + "b/nested", Name: "nested", Types: []string{"N1"}, Tags: tags},
+		{Dir: pre + "c", Name: "c", Types: []string{"C1"}, Tags: tags},
 	}
 	if root {
 		ps[0].Imports = append(ps[0].Imports, mod)
@@ -229,7 +256,7 @@ func newWorld(w *core.Worker, name string, root bool) (*world, error) {
 
 func (wd *world) apply(o op) {
 	wd.salt++
-	dir := o.Pkg
+	dir := wd.phys(o.Pkg)
 	f := func(rel string) string { return filepath.Join(wd.m.Root, dir, rel) }
 	switch o.Kind {
 	case "noop":
@@ -324,17 +351,17 @@ type runObs struct {
 
 // run executes one gengo run and applies the per-run oracles.
 func (wd *world) run(res *core.Result, h history, step int, o op) *runObs {
-	args := specgen.Args{Entrypoint: []string{"./a", "./c"}, OutputFileBaseName: wd.base, All: true}
+	args := specgen.Args{Entrypoint: []string{"./" + wd.phys("a"), "./" + wd.phys("c")}, OutputFileBaseName: wd.base, All: true}
 	gen := specgen.GenSpec{Name: "rec", Def: specgen.Behav{Mode: "render", Salt: "v1"}}
 	switch o.Kind {
 	case "run-all-force":
 		args.Force = true
 	case "run-subset":
-		args.Entrypoint = []string{"./c"}
+		args.Entrypoint = []string{"./" + wd.phys("c")}
 	case "run-nonall":
 		args.All = false
 	case "run-fail":
-		gen.Pkg = map[string]specgen.Behav{pathOf(o.Pkg): {Mode: "error", At: 0, Salt: "v1"}}
+		gen.Pkg = map[string]specgen.Behav{pathOf(wd.phys(o.Pkg)): {Mode: "error", At: 0, Salt: "v1"}}
 	}
 	// expected local packages of the run: dependency closure of the entrypoints inside the module
 	local := map[string]bool{}
@@ -406,7 +433,7 @@ func (wd *world) run(res *core.Result, h history, step int, o op) *runObs {
 	}
 	if o.Kind == "run-fail" {
 		// the failing package may be cached; then the run succeeds
-		if !out.Failed && obs.Executed[pathOf(o.Pkg)] {
+		if !out.Failed && obs.Executed[pathOf(wd.phys(o.Pkg))] {
 			fail("fail-run", o.Kind, "the generator returned an error in %s but Execute succeeded", o.Pkg)
 		}
 	} else if out.Failed {
@@ -578,7 +605,7 @@ func (wd *world) converge(res *core.Result, h history) {
 }
 
 func (p *prop) runHistory(c core.Case, w *core.Worker, res *core.Result, h history, idx int) {
-	wd, err := newWorld(w, fmt.Sprintf("c08-%d-%d", c.ID, idx), h.Root)
+	wd, err := newWorld(w, fmt.Sprintf("c08-%d-%d", c.ID, idx), h.Root, h.Late)
 	if err != nil {
 		res.Inconclusive = append(res.Inconclusive, err.Error())
 		return
@@ -614,7 +641,7 @@ func (p *prop) runHistory(c core.Case, w *core.Worker, res *core.Result, h histo
 }
 
 func randHistory(r *rand.Rand, maxLen int) history {
-	h := history{Root: r.Intn(2) == 0, Start: []string{"fresh", "once", "converged"}[r.Intn(3)]}
+	h := history{Root: r.Intn(2) == 0, Start: []string{"fresh", "once", "converged"}[r.Intn(3)], Late: r.Intn(3) == 0}
 	n := 6 + r.Intn(maxLen-5)
 	for i := 0; i < n; i++ {
 		switch r.Intn(5) {
